@@ -13,7 +13,7 @@ RULE = ("object-heavy schemas with defaults at every depth (properties, patternP
 
 
 def correspond(ctx, C):
-    n = 2500 if ctx.tier == "quick" else 150000
+    n = 8000 if ctx.tier == "quick" else 150000
     if ctx.search:
         n *= 3
     rows = C.run_family("post", n, ctx.seed, ctx.tier, replay=S.replay_file(ctx, C))
